@@ -46,7 +46,7 @@ class TlcResult:
                 self.generated = self.distinct = int(m.group(1))
         for line in out.splitlines():
             if line.startswith("Error:"):
-                mm = re.match(r"Error: (?:Invariant|Action property|Temporal property) (\S+) is violated", line)
+                mm = re.match(r"Error: (?:Invariant|Action property|Temporal property|Property) (.+?) is violated", line)
                 if mm:
                     self.violated.append(mm.group(1).rstrip("."))
                 elif "Temporal properties were violated" in line:
